@@ -9,13 +9,22 @@ package main
 
 import (
 	"encoding/json"
+	"flag"
 	"fmt"
 	"os"
+	"runtime"
 	"strings"
 	"sync"
+	"time"
 
 	"github.com/NethermindEth/juno/sync/preconfirmed"
 	"verif/harness/lib"
+)
+
+var (
+	mode     = flag.String("mode", "", "internal: conc = run only the concurrent stage (child process)")
+	noRace   = flag.Bool("no-race", false, "thorough tier: do not build/run the -race twin of the concurrent stage")
+	concOnly = flag.Int("conc-rounds", 0, "override the number of concurrent rounds")
 )
 
 func main() {
@@ -34,33 +43,82 @@ func main() {
 		}
 		drv = d
 		defer drv.Close()
-	} else {
+	} else if *mode == "" {
 		res.Note("no --driver: property oracle only, no correspondence")
 	}
-	h := &harness{f: f, res: res, drv: drv}
+	h := &harness{f: f, res: res, drv: drv, reported: map[string]bool{}, mu: &sync.Mutex{}}
+	if *mode == "conc" {
+		rounds := f.Scale(6, 40)
+		if *concOnly > 0 {
+			rounds = *concOnly
+		}
+		h.concurrent(lib.NewRNG(f.Seed).Fork(9_999_999), rounds)
+		lib.Finish(f, res)
+	}
 	if f.Replay != "" {
 		h.replay(f.Replay)
 		lib.Finish(f, res)
 	}
 	root := lib.NewRNG(f.Seed)
+	t0 := time.Now()
+	lap := func(name string) {
+		res.Note("stage %s: %.1fs", name, time.Since(t0).Seconds())
+		t0 = time.Now()
+	}
 	h.fixed()
+	lap("fixed")
 	nSeq := f.Scale(260, 6000)
-	for i := 0; i < nSeq; i++ {
-		h.seqCase(root.Fork(uint64(i)), i)
-	}
+	h.parallel(nSeq, func(w *harness, i int) { w.seqCase(root.Fork(uint64(i)), i) })
+	lap("seq")
 	nOv := f.Scale(500, 12000)
-	for i := 0; i < nOv; i++ {
-		h.overlayCase(root.Fork(uint64(1_000_000+i)), i)
-	}
-	h.concurrent(root.Fork(9_999_999), f.Scale(6, 60))
+	h.parallel(nOv, func(w *harness, i int) { w.overlayCase(root.Fork(uint64(1_000_000+i)), i) })
+	lap("overlay")
+	h.concurrentChild()
+	lap("concurrent")
 	lib.Finish(f, res)
 }
 
 type harness struct {
-	f   lib.Flags
-	res *lib.Result
-	drv *lib.Driver
-	mu  sync.Mutex
+	f        lib.Flags
+	res      *lib.Result
+	drv      *lib.Driver
+	mu       *sync.Mutex
+	reported map[string]bool // shared between workers, guarded by mu
+}
+
+// parallel runs n independent cases on a pool of workers; every worker talks to its own Lean
+// driver process. Case i derives all its randomness from root.Fork(i), so the set of cases (and
+// of violation signatures) does not depend on the scheduling.
+func (h *harness) parallel(n int, fn func(w *harness, i int)) {
+	workers := min(runtime.NumCPU(), 12, max(1, n/8))
+	jobs := make(chan int)
+	var wg sync.WaitGroup
+	for w := 0; w < workers; w++ {
+		wh := &harness{f: h.f, res: h.res, reported: h.reported, mu: h.mu}
+		if h.drv != nil {
+			if w == 0 {
+				wh.drv = h.drv
+			} else if d, err := lib.StartDriver(h.f.Driver); err == nil {
+				wh.drv = d
+				defer d.Close()
+			} else {
+				h.res.Note("driver: %v", err)
+				continue
+			}
+		}
+		wg.Add(1)
+		go func() {
+			defer wg.Done()
+			for i := range jobs {
+				fn(wh, i)
+			}
+		}()
+	}
+	for i := 0; i < n; i++ {
+		jobs <- i
+	}
+	close(jobs)
+	wg.Wait()
 }
 
 // compare sends the scenario's requests to the Lean driver and diffs the answers.
@@ -115,6 +173,13 @@ func trunc(scn *Scenario, op int) *Scenario {
 // report turns a runner's findings into violations with a shrunk replay.
 func (h *harness) report(r *runner, scn *Scenario) {
 	for _, fd := range r.findings {
+		h.mu.Lock()
+		seen := h.reported[fd.sig]
+		h.reported[fd.sig] = true
+		h.mu.Unlock()
+		if seen {
+			continue
+		}
 		small := shrink(trunc(scn, fd.op), fd.sig)
 		h.res.Violate(lib.Violation{Sig: fd.sig, What: fd.what, Replay: small})
 	}
@@ -180,7 +245,7 @@ func (h *harness) seqCase(rng *lib.RNG, idx int) {
 		r.observe(i, kind)
 	}
 	if idx < 3 {
-		h.res.Sample(6, map[string]any{"kind": "seq", "ops": len(scn.Ops), "first_ops": scn.Ops[:min(4, len(scn.Ops))]})
+		h.res.Sample(4, map[string]any{"kind": "seq", "ops": len(scn.Ops), "first_ops": scn.Ops[:min(4, len(scn.Ops))]})
 	}
 	h.finishCase(r, scn, fmt.Sprintf("seq/%d/%d", h.f.Seed, idx))
 }
@@ -218,7 +283,7 @@ func (h *harness) replay(path string) {
 	}
 	if scn.Kind == "concurrent" {
 		h.res.Note("replay of a concurrent finding re-runs the concurrent stage")
-		h.concurrent(lib.NewRNG(h.f.Seed), 10)
+		h.concurrentChild()
 		return
 	}
 	r, err := runScenario(&scn, h.drv != nil)
